@@ -277,6 +277,10 @@ func (l *c13Lat) producerDelay(i int) {
 
 func (l *c13Lat) workerDelay(w, i int) {
 	switch l.name {
+	case "late0": // worker 0 answers its first request after 6.5 s (a plugin warming up), then at once
+		if w == 0 && i == 0 {
+			time.Sleep(6500 * time.Millisecond)
+		}
 	case "slow0":
 		if w == 0 && l.hot(i) {
 			h := l.rnd(1, w, i)
@@ -1251,6 +1255,10 @@ func C13Gen(r *Run) {
 		}
 	}
 	// 3. mux
+	// one pipeline whose first answer comes seconds late, with requests queued behind it on the
+	// same and on another pipeline: results are matched to requests by position only
+	g.mux(2, 10, 2, "late0", 4)
+	g.mux(3, 21, 2, "late0", 8)
 	reps := 1
 	if thorough {
 		reps = 4
